@@ -397,6 +397,19 @@ impl Writer {
                 )
             })?;
 
+            if meta_bytes.len() > PREFIX_META_SIZE - 2 {
+                // Same rejection as Block::write (topic name too long for the entry header);
+                // indexing the 256-byte header buffer would panic with both writer locks held.
+                *cur_offset = revert_info.original_offset;
+                for block_id in revert_info.allocated_block_ids.iter() {
+                    FileStateTracker::set_block_unlocked(*block_id as usize);
+                }
+                return Err(std::io::Error::new(
+                    std::io::ErrorKind::InvalidData,
+                    "metadata too large",
+                ));
+            }
+
             let mut meta_buffer = vec![0u8; PREFIX_META_SIZE];
             meta_buffer[0] = (meta_bytes.len() & 0xFF) as u8;
             meta_buffer[1] = ((meta_bytes.len() >> 8) & 0xFF) as u8;
